@@ -61,6 +61,7 @@ type c14Viol struct {
 
 type c14Result struct {
 	Programs, Commands, Distinct int
+	Cut                          int // programs not run because their phase had already timed out three times
 	Viol                         []c14Viol
 	Samples                      []string
 }
@@ -109,7 +110,7 @@ func (l *loop) close() {
 // exec sends one command through the cluster path and returns the reply.
 func (l *loop) exec(args [][]byte) (raw []byte, v model.Val, status string) {
 	l.conn.Send(model.EncodeCommand(args))
-	deadline := time.Now().Add(5 * time.Second)
+	deadline := time.Now().Add(h.Patience)
 	for {
 		select {
 		case p := <-l.proposeC:
@@ -123,7 +124,7 @@ func (l *loop) exec(args [][]byte) (raw []byte, v model.Val, status string) {
 			if done != nil {
 				select {
 				case <-done:
-				case <-time.After(5 * time.Second):
+				case <-time.After(h.Patience):
 					return nil, model.Val{}, "apply-timeout"
 				}
 			}
@@ -153,7 +154,7 @@ func (l *loop) exec(args [][]byte) (raw []byte, v model.Val, status string) {
 // by the first Ready does.
 func (l *loop) execDuringReplay(old []raftpb.Entry, args [][]byte) (raw []byte, v model.Val, status string) {
 	l.conn.Send(model.EncodeCommand(args))
-	deadline := time.Now().Add(5 * time.Second)
+	deadline := time.Now().Add(h.Patience)
 	ents := append([]raftpb.Entry{}, old...)
 	for {
 		select {
@@ -166,7 +167,7 @@ func (l *loop) execDuringReplay(old []raftpb.Entry, args [][]byte) (raw []byte, 
 			if done != nil {
 				select {
 				case <-done:
-				case <-time.After(5 * time.Second):
+				case <-time.After(h.Patience):
 					return nil, model.Val{}, "apply-timeout"
 				}
 			}
@@ -177,7 +178,7 @@ func (l *loop) execDuringReplay(old []raftpb.Entry, args [][]byte) (raw []byte, 
 				if done, ok := l.rc.VerifPublish(ents); ok && done != nil {
 					select {
 					case <-done:
-					case <-time.After(5 * time.Second):
+					case <-time.After(h.Patience):
 						return nil, model.Val{}, "apply-timeout"
 					}
 				}
@@ -249,7 +250,7 @@ func (b *batchLoop) execBatch(cmds [][][]byte) ([]model.Val, string) {
 	direct := map[int]bool{}
 	for i, args := range cmds {
 		b.conns[i].Send(model.EncodeCommand(args))
-		deadline := time.Now().Add(5 * time.Second)
+		deadline := time.Now().Add(h.Patience)
 	wait:
 		for {
 			select {
@@ -282,7 +283,7 @@ func (b *batchLoop) execBatch(cmds [][][]byte) ([]model.Val, string) {
 		if done != nil {
 			select {
 			case <-done:
-			case <-time.After(5 * time.Second):
+			case <-time.After(h.Patience):
 				return nil, "apply-timeout"
 			}
 		}
@@ -438,12 +439,30 @@ func c14Worker(tb []byte, progress func()) []byte {
 	var res c14Result
 	progs, tmplOf := c14Programs(t.Depth2)
 	seen := map[string]bool{}
+	// every "no answer" costs h.Patience of real time: a phase is cut after three of them
+	timeouts := map[string]int{}
+	slow := func(phase, st string) {
+		if strings.Contains(st, "timeout") {
+			timeouts[phase]++
+			progress()
+		}
+	}
+	cut := func(phase string) bool {
+		if timeouts[phase] >= 3 {
+			res.Cut++
+			return true
+		}
+		return false
+	}
 	for pi, prog := range progs {
 		if pi%t.Of != t.Shard {
 			continue
 		}
 		if pi%16 == 0 {
 			progress()
+		}
+		if cut("single") {
+			continue
 		}
 		res.Programs++
 		l := newLoop()
@@ -453,6 +472,8 @@ func c14Worker(tb []byte, progress func()) []byte {
 			args := h.B(c...)
 			_, va, sa := a.exec(args)
 			_, vl, sl := l.exec(args)
+			slow("single", sa)
+			slow("single", sl)
 			if ci < len(c14Seed) {
 				continue
 			}
@@ -508,6 +529,9 @@ func c14Worker(tb []byte, progress func()) []byte {
 		if pi%16 == 0 {
 			progress()
 		}
+		if cut("batch") {
+			continue
+		}
 		res.Programs++
 		bl := newBatchLoop(2)
 		a := newAlone()
@@ -535,6 +559,7 @@ func c14Worker(tb []byte, progress func()) []byte {
 				want = append(want, v)
 			}
 			got, st := bl.execBatch([][][]byte{h.B(prog[0]...), h.B(prog[1]...)})
+			slow("batch", st)
 			res.Commands += 2
 			if ps := rt.TakeFreePanics(); len(ps) > 0 {
 				add("panic", fmt.Sprintf("batch %q: panic %s in %s (cluster node goroutine)", prog, ps[0].Value, ps[0].Func))
@@ -570,6 +595,9 @@ func c14Worker(tb []byte, progress func()) []byte {
 		if pi%16 == 0 {
 			progress()
 		}
+		if cut("restart") {
+			continue
+		}
 		res.Programs++
 		l1 := newLoop()
 		a := newAlone()
@@ -597,6 +625,7 @@ func c14Worker(tb []byte, progress func()) []byte {
 			l2 := newLoop()
 			_, want, sa := a.exec(h.B(prog[1]...))
 			_, got, sl := l2.execDuringReplay(old, h.B(prog[1]...))
+			slow("restart", sl)
 			res.Commands++
 			if ps := rt.TakeFreePanics(); len(ps) > 0 {
 				add("panic", fmt.Sprintf("restart %q: panic %s in %s (cluster node goroutine)", prog, ps[0].Value, ps[0].Func))
